@@ -24,13 +24,31 @@ def describe(job, g, argv, env, plan):
 
 
 def draw_config(rng, g, tier):
-    kind = rng.choice(["exe", "exe", "exe", "shared", "pie"])
+    kind = rng.choice(["exe", "exe", "dynexe", "dynexe", "shared", "pie"])
     threads = rng.choice([2, 2, 3, 4, 8])
     fpg = rng.choice([None, 1, 1, 2, 3, 8])
     experiments = None
     if rng.random() < 0.3:
         experiments = f"_,_,{rng.choice([1, 2, 4])},{rng.choice([1, 4, 16])}"
-    return kind, threads, fpg, experiments
+    # Options that change generated sections (C23's quantifier).
+    opts = []
+    if kind == "shared" and rng.random() < 0.4:
+        opts.append(rng.choice(["-Bsymbolic", "-Bsymbolic-functions"]))
+    if kind != "shared" and rng.random() < 0.3:
+        opts.append("--export-dynamic")
+    if rng.random() < 0.3:
+        opts.append("--no-relax")
+    if rng.random() < 0.2:
+        opts += ["-z", "now"]
+    if kind != "exe" and rng.random() < 0.5:
+        opts.append(f"--hash-style={rng.choice(['gnu', 'sysv', 'both'])}")
+    if kind in ("pie", "shared", "dynexe") and rng.random() < 0.3:
+        opts.append(rng.choice(["-z", "--pack-dyn-relocs=relr"]))
+        if opts[-1] == "-z":
+            opts.append("pack-relative-relocs")
+    if rng.random() < 0.3:
+        opts.append(f"--build-id={rng.choice(['fast', 'sha1', 'none'])}")
+    return kind, threads, fpg, experiments, opts
 
 
 def run_job(job):
@@ -49,7 +67,7 @@ def run_job(job):
         sched_rng = rng_for("graph-sched", seed, index)
         only = job.get("only_schedule")
         for s in range(job["schedules"]):
-            kind, threads, fpg, experiments = draw_config(sched_rng, g, job["tier"])
+            kind, threads, fpg, experiments, opts = draw_config(sched_rng, g, job["tier"])
             strategy = sched_rng.choice(STRATEGIES)
             pseed = sched_rng.getrandbits(48)
             verify_alloc = sched_rng.random() < 0.1
@@ -63,11 +81,13 @@ def run_job(job):
                 plan = Plan(pseed, "replay", log_level=1, decisions_in=dpath)
             out = os.path.join(workdir, f"out{s}")
             argv = gen_graph.link_args(g, objs, out, kind=kind, gc=True)
-            argv += [f"--threads={threads}", "--no-fork"]
+            argv += [f"--threads={threads}", "--no-fork"] + opts
             if experiments:
                 argv.append(f"--wild-experiments={experiments}")
             env = {"WILD_FILES_PER_GROUP": str(fpg) if fpg else None}
-            if verify_alloc:
+            # (The debug verifier cannot handle GOT_TLS_OFFSET entries - "Layout must be present" - so it
+            # is not enabled for workloads with TLS variables; see DESIGN.md.)
+            if verify_alloc and not g.tls:
                 env["WILD_VERIFY_ALLOCATIONS"] = "1"
             r = sim_link(argv, workdir, plan, tag=f"s{s}", env_extra=env)
             check_sim_health(r, f"graph job {index} schedule {s}")
@@ -135,6 +155,8 @@ def run_job(job):
             missing = []
             for i in sorted(reach):
                 n = g.nodes[i]
+                if n.kind == "tls":
+                    continue
                 sym = syms.get(n.name)
                 if sym is None:
                     missing.append(f"{n.name}(no symbol)")
@@ -146,10 +168,10 @@ def run_job(job):
             if missing:
                 viol("C05", "closure", "graph/closure-missing",
                      f"{len(missing)} reachable sections missing: {missing[:6]}")
-            if kind == "exe":
+            if kind in ("exe", "dynexe"):
                 try:
                     p = subprocess.run([out], stdout=subprocess.PIPE, stderr=subprocess.PIPE,
-                                       timeout=20)
+                                       timeout=20, env={"LD_LIBRARY_PATH": workdir})
                     got = p.stdout
                     rc = p.returncode
                 except subprocess.TimeoutExpired:
